@@ -39,7 +39,9 @@ func (fc *fnCtx) execBlock(b *ssa.BasicBlock, st *state, edgeIn map[*ssa.BasicBl
 				unsup("field of non-datatype value %s", x.S)
 			}
 			f := dt.fields[i.Field]
-			fc.env[i] = Val{T: fmt.Sprintf("(%s %s)", f.name, x.T), S: f.sort, Ty: f.typ}
+			fv := Val{T: fmt.Sprintf("(%s %s)", f.name, x.T), S: f.sort, Ty: f.typ}
+			fc.tagFrozenField(st, fv, selKey(selStep{dt: dt, fi: i.Field}))
+			fc.env[i] = fv
 		case *ssa.IndexAddr:
 			fc.execIndexAddr(st, i)
 		case *ssa.Index:
@@ -88,7 +90,11 @@ func (fc *fnCtx) execBlock(b *ssa.BasicBlock, st *state, edgeIn map[*ssa.BasicBl
 			v.Ty = i.Type()
 			fc.env[i] = v
 		case *ssa.ChangeType:
-			fc.env[i] = fc.convertVal(st, fc.val(i.X), i.X.Type(), i.Type())
+			cv := fc.convertVal(st, fc.val(i.X), i.X.Type(), i.Type())
+			if mt, ok := fc.isFrozenType(i.Type()); ok {
+				fc.freeze(st, cv, mt)
+			}
+			fc.env[i] = cv
 		case *ssa.Convert:
 			fc.env[i] = fc.convertVal(st, fc.val(i.X), i.X.Type(), i.Type())
 		case *ssa.TypeAssert:
@@ -209,8 +215,8 @@ func (fc *fnCtx) zeroInit(st *state, a *Addr) {
 		stt := a.typ.Underlying().(*types.Struct)
 		for k := 0; k < stt.NumFields(); k++ {
 			fa := fc.fieldAddr(a, k)
-			if fa.kind == aPath {
-				continue // big nested struct: left unconstrained
+			if fa.kind == aPath || fa.kind == aImm {
+				continue // big nested struct / immutable field: left unconstrained until assigned
 			}
 			fc.store(st, fa, Val{T: fc.e.sorts.zeroOfSort(fa.hsort), S: fa.hsort, Ty: fa.typ})
 		}
@@ -225,6 +231,7 @@ func (fc *fnCtx) allocRef(st *state, prefix string, t types.Type) Val {
 	al := fc.heapVar(st, "alloc", "(Array V Bool)")
 	fc.assume(st, fmt.Sprintf("(and (not (= %s vnil)) (not (select %s %s)))", r.T, al, r.T))
 	fc.setHeap(st, "alloc", "(Array V Bool)", fmt.Sprintf("(store %s %s true)", al, r.T))
+	fc.freshRefs[r.T] = true
 	return r
 }
 
@@ -374,6 +381,9 @@ func (fc *fnCtx) execLookup(st *state, i *ssa.Lookup) {
 		unsup("string indexing")
 	}
 	m, k := fc.val(i.X), fc.val(i.Index)
+	if fmt_, ok := st.frozen[m.T]; ok {
+		fc.thaw(st, m, fmt_)
+	}
 	dom, val, ds, vs := fc.mapVars(mt)
 	d := fc.heapVar(st, dom, ds)
 	v := fc.heapVar(st, val, vs)
@@ -391,6 +401,9 @@ func (fc *fnCtx) execLookup(st *state, i *ssa.Lookup) {
 func (fc *fnCtx) execMapUpdate(st *state, i *ssa.MapUpdate) {
 	mt := i.Map.Type().Underlying().(*types.Map)
 	m, k, v := fc.val(i.Map), fc.val(i.Key), fc.val(i.Value)
+	if _, ok := st.frozen[m.T]; ok {
+		unsup("update of a frozen (immutable) map")
+	}
 	fc.safety(st, "nil-map-write", fmt.Sprintf("(not (= %s vnil))", m.T), i.Pos())
 	fc.mapStore(st, mt, m.T, k.T, v.T, true)
 }
@@ -411,6 +424,9 @@ func (fc *fnCtx) execRange(st *state, i *ssa.Range) {
 		unsup("range over string")
 	}
 	m := fc.val(i.X)
+	if fmt_, ok := st.frozen[m.T]; ok {
+		fc.thaw(st, m, fmt_)
+	}
 	g := fmt.Sprintf("visited!%d", fc.site("range"))
 	ks := fc.sortOf(mt.Key())
 	st.ghost[g] = Val{T: fmt.Sprintf("((as const (Array %s Bool)) false)", ks), S: "(Array " + ks + " Bool)"}
@@ -524,6 +540,9 @@ func (fc *fnCtx) execTypeAssert(st *state, i *ssa.TypeAssert) {
 		}
 	}
 	v := Val{T: fc.def(rs, value), S: rs, Ty: i.AssertedType}
+	if mt, isF := fc.isFrozenType(i.AssertedType); isF {
+		fc.thaw(st, v, mt)
+	}
 	if i.CommaOk {
 		fc.env[i] = []Val{v, {T: ok, S: "Bool"}}
 	} else {
